@@ -246,6 +246,21 @@ def judge_c12(c, d, rep, tab, case, stats):
                 viol.append((f"backward total {bint:.3f} (from the betas) and forward total {d['Q']['norm']} differ by more than {enorm + ebwd:.1f}", True))
             if d["Q"]["post"] > 0:
                 viol.append((f"posterior of the best path {d['Q']['post']} exceeds one", True))
+            # exact correspondence of the integer passes (model: alphaInt/betaInt/normInt with the decoder's log-add table)
+            if ok_lat and rep.get("alpha") is not None and len(rep["alpha"]) == nl:
+                inc("posterior:lattices-compared-exactly")
+                ca = [d["R"][j]["alpha"] for j in range(nl)]
+                cb = [d["R"][j]["beta"] for j in range(nl)]
+                if rep["alpha"] != ca:
+                    k = next(i for i in range(nl) if rep["alpha"][i] != ca[i])
+                    mism.append(f"alphaInt: link {k} model {rep['alpha'][k]} C {ca[k]}")
+                if rep["beta"] != cb:
+                    k = next(i for i in range(nl) if rep["beta"][i] != cb[i])
+                    mism.append(f"betaInt: link {k} model {rep['beta'][k]} C {cb[k]}")
+                if rep.get("norm") != d["Q"]["norm"]:
+                    mism.append(f"normInt: model {rep.get('norm')} C {d['Q']['norm']}")
+            if any(r.get("scaled") is not None and r["scaled"] != sc[j] for j, r in d["R"].items()):
+                c.oblige("float32 emulation of the score scaling agrees with the harness", False, {"case": case})
             inc("posterior:links", nl)
             stats["posterior:max-abs-deviation-from-exact"] = max(stats.get("posterior:max-abs-deviation-from-exact", 0.0), round(worst, 3))
             stats["posterior:largest-bound-used"] = max(stats.get("posterior:largest-bound-used", 0.0), round(wbound, 1))
@@ -394,6 +409,21 @@ def judge_c12(c, d, rep, tab, case, stats):
                 viol.append((f"backward total {bint:.2f} (from the betas) and forward total {d['Q']['norm']} differ by more than {2 * tol1}", True))
             if d["Q"]["post"] > 0:
                 viol.append((f"posterior of the best path {d['Q']['post']} exceeds one", True))
+            # exact correspondence of the integer passes (model: alphaInt/betaInt/normInt with the decoder's log-add table)
+            if ok_lat and rep.get("alpha") is not None and len(rep["alpha"]) == nl:
+                inc("posterior:lattices-compared-exactly")
+                ca = [d["R"][j]["alpha"] for j in range(nl)]
+                cb = [d["R"][j]["beta"] for j in range(nl)]
+                if rep["alpha"] != ca:
+                    k = next(i for i in range(nl) if rep["alpha"][i] != ca[i])
+                    mism.append(f"alphaInt: link {k} model {rep['alpha'][k]} C {ca[k]}")
+                if rep["beta"] != cb:
+                    k = next(i for i in range(nl) if rep["beta"][i] != cb[i])
+                    mism.append(f"betaInt: link {k} model {rep['beta'][k]} C {cb[k]}")
+                if rep.get("norm") != d["Q"]["norm"]:
+                    mism.append(f"normInt: model {rep.get('norm')} C {d['Q']['norm']}")
+            if any(r.get("scaled") is not None and r["scaled"] != sc[j] for j, r in d["R"].items()):
+                c.oblige("float32 emulation of the score scaling agrees with the harness", False, {"case": case})
             inc("posterior:links", nl)
             stats["posterior:max-abs-deviation-from-exact"] = max(stats.get("posterior:max-abs-deviation-from-exact", 0.0), round(worst, 3))
             stats["posterior:largest-bound-used"] = max(stats.get("posterior:largest-bound-used", 0.0), tol1)
